@@ -4,13 +4,7 @@
 use super::*;
 pub use crate::verif_hooks::spec::{Abs, Vid, NMAX};
 
-#[derive(Clone, Copy, PartialEq, Eq, Debug)]
-pub struct SegAbs {
-    pub probationary: Abs,
-    pub protected: Abs,
-    pub probationary_size: usize,
-    pub protected_size: usize,
-}
+pub use crate::verif_hooks::spec::SegAbs;
 
 impl<K, V, FH, RH> SegmentedCache<K, V, FH, RH> {
     /// abstract view: both segment views plus the configured sizes
